@@ -116,6 +116,9 @@ def constructs():
         "in_rubric": (lambda n: ["```{rubric} Rubric " + S(n), "```"], "raw", None),
         "in_epigraph": (lambda n: ["```{epigraph}", f"quote {S(n)}", "", f"-- attribution {S(n + 500)}", "```"], "raw", None),
         "in_line_block": (lambda n: ["```{line-block}", f"line {S(n)}", "second", "```"], "raw", None),
+        # nodes that are built outside the tree and inserted by a later docutils transform (substitution definitions)
+        "evalrst_subst_ref_to_myst": (lambda n: ["```{eval-rst}", "rst text |rawsub| and |rawsub_inline| here", "```"], "none", None),
+        "evalrst_subst_replace": (lambda n: ["```{eval-rst}", f".. |rp{n}| replace:: :raw-html-{n}:`{S(n)}`", "", f".. role:: raw-html-{n}(raw)", "   :format: html", "", f"use |rp{n}| here", "```"], "none", None),
         "in_deflist_like": (lambda n: ["```{glossary-like}", "```", "", f"para {S(n)}"], "raw", None),
         "include_md": (lambda n: ["```{include} " + f"{D}/inc.md", "```"], "both", "FILESENT1"),
         "include_literal": (lambda n: ["```{include} " + f"{D}/inc.txt", ":literal:", "```"], "file", "FILESENT2"),
